@@ -52,7 +52,7 @@ Fixpoint read_only {A} (p : prog B A) : Prop :=
 
 Lemma exec_read_call : forall t c, read_call c = true -> snd (exec_call B empty t c) = t.
 Proof.
-  intros t c H. destruct c as [p|p|p|p m|p d|p|p]; try discriminate; simpl; try reflexivity.
+  intros t c H. destruct c as [p|p|p|p|p m|p d|p|p]; try discriminate; simpl; try reflexivity.
   - destruct m; try discriminate. unfold open_.
     destruct (resolve B t p) as [e|q]; [reflexivity|].
     destruct (lookup B t q) as [[b|]|]; reflexivity.
@@ -118,14 +118,43 @@ Proof.
     split; [intro e; ends|]. intros [b| |d''|e]; simpl; try exact I; apply Hk.
 Qed.
 
+Lemma safe_write_it : forall target data ow,
+  fault_safe B empty AccessErr (write_it B target data ow).
+Proof.
+  intros target data ow. unfold write_it. simpl. split; [intro e; ends|].
+  intros [b1| |d1|e1]; simpl; try exact I;
+    (split; [intro e2; ends|]; intros [b2| |d2|e2]; simpl;
+     (split; [intro e3; ends | intros r; destruct r; exact I])).
+Qed.
+
+Lemma ends_access : ends_err B empty (AccessErr : outcome (resval B)) (Ret AccessErr).
+Proof. intro t. reflexivity. Qed.
+
 Lemma safe_store_at : forall c fp buf mime ow,
   fault_safe B empty AccessErr (store_at B plain gz c fp buf mime ow).
 Proof.
-  intros c fp buf mime ow. unfold store_at. simpl. split; [intro e; ends|].
-  intros [b| |d|e]; simpl; try exact I;
-    (split; [intro e'; ends|]; intros [b1| |d1|e1]; simpl; try exact I;
-     (split; [intro e2; ends|]; intros [b2| |d2|e2]; simpl;
-      (split; [intro e3; ends | intros r; destruct r; exact I]))).
+  intros c fp buf mime ow. unfold store_at. cbn [fault_safe]. split; [intro e; ends|].
+  assert (Hrest : forall r1 : reply B,
+    fault_safe B empty AccessErr
+      match r1 with
+      | RErr _ => Ret AccessErr
+      | RBool true =>
+          if ow
+          then Do (CUnlink (if gzip c && negb (exempt mime) then fp else with_gz fp))
+                 (fun r => match r with
+                           | RErr _ => Ret AccessErr
+                           | _ => write_it B (if gzip c && negb (exempt mime) then with_gz fp else fp)
+                                    (if gzip c && negb (exempt mime) then gz (level c) buf else plain buf) ow
+                           end)
+          else Ret AccessErr
+      | _ => write_it B (if gzip c && negb (exempt mime) then with_gz fp else fp)
+               (if gzip c && negb (exempt mime) then gz (level c) buf else plain buf) ow
+      end).
+  { intros r1. destruct r1 as [[|]| |d1|e1]; try exact I; try apply safe_write_it.
+    destruct ow; [|exact I]. cbn [fault_safe]. split; [intro e; ends|].
+    intros r2. destruct r2; try exact I; apply safe_write_it. }
+  intros r0. destruct r0 as [x| |d|e]; try exact I;
+    (cbn [fault_safe]; split; [intro e'; ends | exact Hrest]).
 Qed.
 
 Theorem fa_fault_safe : forall c o,
